@@ -101,7 +101,8 @@ PPut(e) ==
                            <<e.acc < 0 \/ e.acc > e.n \/ (e.acc > 0 /\ (e.committed = 1 \/ ~(e.why = "refused" \/ IsFault(e)))), "kept-prefix">>,
                            <<e.committed = 1 /\ ~open, "commit-without-session">>,
                            <<e.why = "minlen" /\ ~(h.enforce = 1 /\ short), "minlen-unjustified">> >>)
-  /\ UNCHANGED <<h, short, nonconf>>
+  /\ nonconf' = IF nonconf = "" /\ e.acc > 0 /\ h.min > 0 /\ h.enforce = 1 THEN "partial-with-enforced-minimum" ELSE nonconf
+  /\ UNCHANGED <<h, short>>
 
 PGet(e) ==
   /\ nfault' = Count(e)
